@@ -22,6 +22,9 @@ pub struct Step {
     pub bypass: bool,
     pub operator_auth: bool,
     pub cand: SetGen,
+    /// days that pass before this step (installed sets must not decay with time)
+    #[serde(default)]
+    pub days_before: u8,
 }
 
 #[derive(Clone, Debug, Serialize, Deserialize)]
@@ -32,8 +35,8 @@ pub struct Case {
 }
 
 fn step() -> impl Strategy<Value = Step> {
-    (prop_oneof![3 => Just(0u16), 2 => any::<u16>()], any::<bool>(), prop_oneof![4 => Just(true), 1 => Just(false)], setgen(3))
-        .prop_map(|(prover, bypass, operator_auth, cand)| Step { prover, bypass, operator_auth, cand })
+    (prop_oneof![3 => Just(0u16), 2 => any::<u16>()], any::<bool>(), prop_oneof![4 => Just(true), 1 => Just(false)], setgen(3), prop_oneof![4 => Just(0u8), 1 => 1u8..25])
+        .prop_map(|(prover, bypass, operator_auth, cand, days_before)| Step { prover, bypass, operator_auth, cand, days_before })
 }
 
 impl Property for C08 {
@@ -42,7 +45,7 @@ impl Property for C08 {
         "C08"
     }
     fn rule(&self) -> &'static str {
-        "proptest: retention in {0,1,2,3,5,100,2^63,u64::MAX-3,u64::MAX-1,u64::MAX}, 1-4 initial sets, history of <=9 (quick) / <=14 (thorough) rotation attempts (proving set = any installed set, bypass flag, operator authorisation). After construction and after every step EVERY installed set is probed on both paths: validate_proof over a fresh data hash and approve_messages of a unique message. Oracle: honoured iff current_epoch - epoch(set) <= retention (validate_proof's flag true exactly for the newest set); a rotation attempt succeeds iff the proving set is the newest (no bypass) or within the window (bypass with operator authorisation). non-trivial = some probe lies exactly on the boundary (current - epoch in {retention, retention+1}); distinct by Debug hash"
+        "proptest: retention in {0,1,2,3,5,100,2^63,u64::MAX-3,u64::MAX-1,u64::MAX}, 1-4 initial sets, history of <=9 (quick) / <=14 (thorough) rotation attempts (proving set = any installed set, bypass flag, operator authorisation), optionally with up to 24 days passing before a step. After construction and after every step EVERY installed set is probed on both paths: validate_proof over a fresh data hash and approve_messages of a unique message. Oracle: honoured iff current_epoch - epoch(set) <= retention (validate_proof's flag true exactly for the newest set); a rotation attempt succeeds iff the proving set is the newest (no bypass) or within the window (bypass with operator authorisation). non-trivial = some probe lies exactly on the boundary (current - epoch in {retention, retention+1}); distinct by Debug hash"
     }
     fn cases(&self, tier: Tier) -> u64 {
         tier.pick(3000, 40000)
@@ -122,6 +125,10 @@ impl Property for C08 {
 
         probe_all(&installed, &model, "after construction", cx)?;
         for (k, st) in case.steps.iter().enumerate() {
+            if st.days_before > 0 {
+                advance_ledgers(&env, st.days_before as u32 * 17280);
+                cx.label("days_pass_between_steps");
+            }
             let prover = installed[installed.len() - 1 - pick(st.prover, installed.len())].clone();
             let ph = prover.hash();
             let cand = st.cand.build((case.initial.len() + k) as u8);
